@@ -1,27 +1,38 @@
 package main
 
 import (
+	"bufio"
 	"fmt"
 	"os"
+	"strings"
 
+	"github.com/dolthub/go-mysql-server/sql"
 	"verifharness/lib/eng"
 )
 
 func main() {
 	e := eng.New("db")
 	s := e.Session()
-	s.MustExec(
-		"CREATE TABLE c (id INT PRIMARY KEY, s VARCHAR(20) COLLATE utf8mb4_0900_ai_ci, g VARCHAR(20) COLLATE utf8mb4_general_ci, bn VARCHAR(20))",
-		"INSERT INTO c VALUES (1,'e','e','e'),(2,'é','é','é'),(3,'E','E','E'),(4,'f','f','f')",
-		"CREATE TABLE c2 (id INT PRIMARY KEY, s VARCHAR(20) COLLATE utf8mb4_0900_ai_ci)",
-		"INSERT INTO c2 VALUES (1,'é'),(2,'x')",
-		"CREATE TABLE p (id INT PRIMARY KEY, s VARCHAR(20), u VARCHAR(20))",
-		"INSERT INTO p VALUES (1,'a\\0','b'),(2,'a','\\0b'),(3,'a','b')",
-		"CREATE TABLE big (id INT PRIMARY KEY, x DECIMAL(22,2))",
-		"INSERT INTO big VALUES (1, 12345678901234567.88),(2, 12345678901234567.89)",
-	)
-	for _, q := range os.Args[1:] {
+	sc := bufio.NewScanner(os.Stdin)
+	sc.Buffer(make([]byte, 1<<20), 1<<20)
+	for sc.Scan() {
+		q := strings.TrimSpace(sc.Text())
+		if q == "" {
+			continue
+		}
+		if strings.HasPrefix(q, "PLAN ") {
+			ctx := s.Ctx
+			n, err := e.Engine.AnalyzeQuery(ctx, q[5:])
+			if err != nil {
+				fmt.Println("PLAN ERR", err)
+			} else {
+				fmt.Println(sql.DebugString(ctx, n))
+			}
+			continue
+		}
 		r := s.Query(q)
-		fmt.Println(q, "=>", eng.Rows(r.Rows), r.Err)
+		if strings.HasPrefix(q, "SELECT") || r.Err != nil {
+			fmt.Println(q, "=>", eng.Rows(r.Rows), r.Err)
+		}
 	}
 }
